@@ -431,6 +431,10 @@ def nr_rks_nldf(
                 wv_full[idm, :, ip0:ip1] = weight * vxc
             ip0 = ip1
         for idm in range(nset):
+            if nset > 1:
+                # The generator only caches the intermediates of its most
+                # recent get_features call, so refresh them for this density.
+                ni.nldfgen.get_features(rho_full[idm])
             wv_full[idm, :, :] += ni.nldfgen.get_potential(vxc_nldf_full[idm])
 
     buffers = None
@@ -554,7 +558,7 @@ def nr_uks_nldf(
                 rho = (rho_a, rho_b)
                 if ni.has_sdmx:
                     sdmx_feat = ni.sdmxgen.get_features(
-                        dm_for_sdmx[i],
+                        dm_for_sdmx[idm],
                         mol,
                         coords,
                         ao=sdmx_ao,
@@ -571,18 +575,23 @@ def nr_uks_nldf(
                     xctype=xctype,
                 )[:2]
                 if ni.has_sdmx:
-                    ni.sdmxgen.get_vxc_(vmat[:, i], vxc_sdmx * weight)
+                    ni.sdmxgen.get_vxc_(vmat[:, idm], vxc_sdmx * weight)
                 vxc_nldf_full[idm, ..., ip0:ip1] = vxc_nldf * weight
                 den_a = rho_a[0] * weight
                 den_b = rho_b[0] * weight
-                nelec[0, i] += den_a.sum()
-                nelec[1, i] += den_b.sum()
-                excsum[i] += np.dot(den_a, exc)
-                excsum[i] += np.dot(den_b, exc)
+                nelec[0, idm] += den_a.sum()
+                nelec[1, idm] += den_b.sum()
+                excsum[idm] += np.dot(den_a, exc)
+                excsum[idm] += np.dot(den_b, exc)
                 wva_full[idm, :, ip0:ip1] = weight * vxc[0]
                 wvb_full[idm, :, ip0:ip1] = weight * vxc[1]
             ip0 = ip1
         for idm in range(nset):
+            if nset > 1:
+                # The generator only caches the intermediates of its most
+                # recent get_features call per spin, so refresh them.
+                ni.nldfgen.get_features(rhoa_full[idm], spin=0)
+                ni.nldfgen.get_features(rhob_full[idm], spin=1)
             wva_full[idm, :, :] += ni.nldfgen.get_potential(
                 vxc_nldf_full[idm, 0], spin=0
             )
